@@ -113,22 +113,35 @@ def run(rep: common.Report, tier: str, seed: int, replay=None) -> int:
     systems = [("um", "mT", "uA"), ("nm", "uT", "nA"), ("mm", "T", "mA")]
     B_T, I_A = 0.4e-3, 2.0e-6
     for screening in ((False, True) if tier == "thorough" else (False, True)):
-        frames, phys = {}, {}
+        frames, phys, failed = {}, {}, {}
         with tempfile.TemporaryDirectory(prefix="pyt_c08_") as td:
             for lu, fu, cu in systems:
                 dev = device_in(base, lu)
                 opts = runs.make_options(td, solve_time=0.25 if not screening else 0.06, dt_init=2e-3, dt_max=2e-2, save_every=10,
                                          field_units=fu, current_units=cu, include_screening=screening, screening_tolerance=1e-3,
                                          output_file=f"{td}/r_{lu}_{int(screening)}.h5")
-                sol = tdgl.solve(dev, opts, applied_vector_potential=B_T / FU[fu],
-                                 terminal_currents={"source": I_A / CU[cu], "drain": -I_A / CU[cu]})
+                try:
+                    sol = tdgl.solve(dev, opts, applied_vector_potential=B_T / FU[fu],
+                                     terminal_currents={"source": I_A / CU[cu], "drain": -I_A / CU[cu]})
+                except RuntimeError as e:
+                    failed[lu] = str(e)[:160]
+                    continue
                 with h5py.File(sol.path, "r") as f:
                     frames[lu] = [{k: np.array(f["data"][key][k]) for k in ("psi", "mu", "supercurrent", "normal_current")}
                                   for key in sorted(f["data"], key=int)]
                 K = (sol.supercurrent_density + sol.normal_current_density).to("A / m").magnitude
                 phys[lu] = K
+            if failed and len(failed) < len(systems):
+                rep.violation("the same physical problem runs in one unit system and fails in another",
+                              {"screening": screening, "failed": failed, "ran": sorted(frames), "B_tesla": B_T, "I_amp": I_A})
+            elif failed:
+                rep.not_shown("unit-system runs: the reference problem failed in every unit system", {"screening": screening, "failed": failed})
+            if "um" not in frames:
+                continue
             ref = frames["um"]
             for lu in ("nm", "mm"):
+                if lu not in frames:
+                    continue
                 case = {"units": lu, "screening": screening, "frames": len(ref)}
                 if len(frames[lu]) != len(ref):
                     rep.violation("the same physical problem recorded a different number of frames in another unit system", case)
